@@ -280,14 +280,19 @@ theorem unique_nodup_same_set (v : List β) :
   obtain ⟨h1, h2⟩ := unique_spec v
   exact ⟨h1, h1.imp (fun {a b} h => ne_of_lt h), h2⟩
 
-/-- `vectorUnion` holds exactly the elements of either argument -/
-theorem union_iff (a b : List β) (x : β) : x ∈ vectorUnion deq a b ↔ x ∈ a ∨ x ∈ b := mem_vectorUnion a b x
+/-- witness of the defect repaired in round 2: before the repair `vectorUnion(v1, v2)` kept the
+repeated elements of its first argument (documented: "duplicate element will be removed") … -/
+theorem unionOrig_keeps_duplicates (x : β) (b : List β) :
+    ¬ (vectorUnionOrig deq [x, x] b).Nodup := by
+  rw [vectorUnionOrig_eq]; simp
 
-/-- … it is the first vector followed by new, pairwise distinct elements (the predicate the driver
-evaluates), so it is duplicate-free when the first vector is -/
-theorem union_shape (a b : List β) :
-    IsUnion deq a b (vectorUnion deq a b) ∧ (a.Nodup → (vectorUnion deq a b).Nodup) :=
-  ⟨isUnion_vectorUnion a b, nodup_vectorUnion a b⟩
+/-- … and was otherwise the first vector followed by the new, pairwise distinct elements of the
+second — which is what `extend` (the in-place variant, documented that way) still computes
+(`IsUnion` is the predicate the driver evaluates for `extend`) -/
+theorem unionOrig_shape (a b : List β) :
+    (∀ x, x ∈ vectorUnionOrig deq a b ↔ x ∈ a ∨ x ∈ b) ∧
+    IsUnion deq a b (vectorUnionOrig deq a b) ∧ (a.Nodup → (vectorUnionOrig deq a b).Nodup) :=
+  ⟨mem_vectorUnionOrig a b, isUnion_vectorUnionOrig a b, nodup_vectorUnionOrig a b⟩
 
 /-- `vectorIntersection` holds exactly the common elements (in the order of the first vector) -/
 theorem inter_iff (a b : List β) (x : β) : x ∈ vectorIntersection deq a b ↔ x ∈ a ∧ x ∈ b :=
